@@ -80,7 +80,7 @@ def judge(r, method, allow_negatives, consistent, viol, known, tags):
                 tags.append("square_singular")
         fb_warn = any("Numerically solving" in w for w in r.warnings)
         if (path == "nnls-fallback") != fb_warn:
-            viol.append({"what": "solver path recorded by the hook does not match the warnings emitted", "detail": {"path": path, "warnings": r.warnings[:2]}})
+            tags.append("advisory:path_vs_warning_text_differ")      # wording of warnings is not part of the property
         if not np.all(np.isfinite(x)):
             viol.append({"what": "non-finite tension reported", "detail": x[:8].tolist()})
             return
@@ -242,7 +242,14 @@ class Solver(ProductSystem):
         if r.M.shape[0] == 0 or r.M.shape[1] == 0:
             return {"viol": [], "tags": tags + ["empty_system_no_verdict"], "cls": "empty", "outdom": True}
         if cfg["method"] == "fix_stress":
-            viol.append({"what": "method='fix_stress' returned (finding F9 says it raises on every input): re-examine", "detail": r.forces[:5]})
+            # should the method ever be repaired: it fixes one tension instead of the mean, so only the clauses that do not
+            # mention the mean-one row are judged (finite, non-negative when negatives are disallowed)
+            x_ = np.array(r.forces, float)
+            if not np.all(np.isfinite(x_)):
+                viol.append({"what": "non-finite tension reported by 'fix_stress'"})
+            elif not cfg["neg"] and x_.min() < 0:
+                viol.append({"what": "negative tension reported by 'fix_stress' although negatives are disallowed", "detail": float(x_.min())})
+            return {"viol": viol, "known": known, "tags": tags + ["fix_stress_returned"], "cls": "fix_stress-returned"}
         judge(r, cfg["method"], cfg["neg"], consistent, viol, known, tags)
         nact = sum(1 for v in r.forces if v <= 1e-9)
         cls = "%s/%s/%s/%s/%s/%d" % (r.M.shape, r.record["path"] if r.record else "-", cfg["rhs"], cfg["method"], var[0], nact)
